@@ -16,8 +16,9 @@ ASSUMPTIONS = wa.ASSUMPTIONS + ["atom names are unique inside a generated residu
                                 "comparing (names, name-labelled edges); virtual-site kinds generated: virtual_sitesn funct 1, "
                                 "virtual_sites2, virtual_sites3 funct 1"]
 REAL_VS_STUB = wa.REAL_VS_STUB
-PROBES = wa.PROBES + ["optimisation_fall_through", "user_template", "user_volume", "resname_clash"]
-PROFILE = {"n_restypes": (2, 3), "n_moltypes": (2, 3), "max_atoms": 4, "faults": ["opt", "opt", "step"],
+PROBES = wa.PROBES + ["skip_filter", "unoptimisable_residue", "optimisation_fall_through", "user_template", "user_volume", "resname_clash"]
+PROFILE = {"impossible_p": 0.5, "vs_p": 0.4,
+           "n_restypes": (2, 3), "n_moltypes": (2, 3), "max_atoms": 4, "faults": ["opt", "opt", "step"],
            "max_molecules": 5, "maxres": 5, "box_modes": ["cubic"], "n_entries": (2, 3)}
 
 
@@ -33,6 +34,8 @@ def gen_job(verif_seed, tier, index):
         jobgen.add_resname_clash(job, g)
     if g.random() < 0.35:
         jobgen.add_user_templates(job, g)
+    if g.random() < 0.15 and not job.get("resname_clash"):
+        job["opts"]["skip_filter"] = True
     if g.random() < 0.5:
         # streaks of failed verdicts: retry loop (<= 11 in a row) and fall-through (>= 12)
         lane = []
@@ -50,6 +53,10 @@ def _tag(job, res):
         p["user_volume"] = 1
     if job.get("resname_clash"):
         p["resname_clash"] = 1
+    if job["opts"].get("skip_filter"):
+        p["skip_filter"] = 1
+    if any(rt.get("impossible") for rt in job["spec"]["restypes"].values()):
+        p["unoptimisable_residue"] = 1
     return bool(p.get("two_or_more_templates")) or bool(res["faults"].get("optimiser_forced_fail"))
 
 
